@@ -1,4 +1,5 @@
 import Driver.C10
+import Driver.C01Wire
 /-
   Line protocol for C01 (image = exact, closed, ordered compilation of the targets):
 
@@ -8,6 +9,8 @@ import Driver.C10
   roots rotated by k, reversed when k is odd.  Answer:
     ok/<file>,<file>,…   file = hexpath:I|T:S|s:<unused idx joined by +>:<name|_>:<commit>
     err/<class>
+
+    wire <TAB> <desc> <TAB> <flags>        the serialised form of one image file, see Driver/C01Wire.lean
 -/
 namespace Driver.C01
 open BufModel.Path BufModel.Graph BufModel.Targeting Driver Driver.C10
@@ -51,6 +54,7 @@ def handle : List String → String
       | .error e => "err/" ++ e.tag
       | .ok fs => "ok/" ++ ",".intercalate (fs.map showFile)
     | _, _ => "bad-op"
+  | "wire" :: rest => Driver.C01Wire.handle rest
   | _ => "bad-op"
 
 def run : IO Unit := runLines handle
